@@ -89,6 +89,11 @@ CHECKS["C19"] = dict(engine="Render", ref="3 (C19)",
     note="Trusted: TLC; 'shown' is a substring / line-sequence comparison done by the harness. Valid UTF-8 text only.",
     technique="TLA+ spec of the hunk assembler composed with the matcher spec, TLC check on all reachable diff shapes, shapes replayed through the five real renderers, TLC judgement of every record")
 
+CHECKS["C12"] = dict(engine="ShellCarrier", ref="3 (C12)",
+    text="specs/ShellCarrier.tla models shell state (two variables with kind scalar / indexed / associative, export flag and 9 value classes incl. spaces, quotes, newline, non-ASCII, glob characters, `$`; a function, an alias, 4 `set -o` options, 3 `shopt` options, working directory and directory stack) with 13 kinds of state-changing operations, ONE reference session, and the carrier as one process per test case (restore state file, run operations one at a time, probe, dump in the EXIT trap unless detached). TLC checks for all histories of 2 test cases x 1 operation (152241 states) that every probe equals the reference session and that detached test cases leave nothing behind, then generates histories (all two-step ones: sampled in quick; 120 simulated histories of 4 test cases x 2 operations, thorough 2500). Each history is concretised into bash snippets and run through the real StatefulExecutor + BashRunner (one bash process per test case) with a probe that prints the complete modelled state; TLC compares every probe with the reference state. The same snippets are run in ONE real bash session: if that disagrees with the spec the check exits 2 (my model of bash is wrong), never 1.",
+    note="Trusted: TLC; /bin/bash. Readonly variables and user EXIT traps are outside the state classes. State classes are sampled by 2 names / 9 value classes.",
+    technique="TLA+ spec of single-session state vs per-process carrier, TLC check + TLC-generated histories run through the real executor and through one real bash session, TLC comparison of every probe")
+
 NOT_YET = {
 }
 
@@ -142,6 +147,7 @@ def main():
             {"name": "ConfigLayers", "path": "specs/ConfigLayers.tla", "serves_properties": ["C16"], "kind_free_text": "layering model of configuration (Merge, Effective, PrecedenceOK), MC_ConfigLayers, ConfigTrace"},
             {"name": "ConfigRoundTrip", "path": "specs/ConfigRoundTrip.tla", "serves_properties": ["C17"], "kind_free_text": "value-class enumeration of configurations and the round-trip predicate; MC_ConfigRoundTrip, ConfigRoundTripTrace"},
             {"name": "Render", "path": "specs/Render.tla", "serves_properties": ["C19"], "kind_free_text": "hunk assembler of the diff renderer composed with DiffAlgo; MC_Render (ShowsAll + GEN), RenderTrace (judgement of real renderings)"},
+            {"name": "ShellCarrier", "path": "specs/ShellCarrier.tla", "serves_properties": ["C12"], "kind_free_text": "shell state, operations, reference session and per-process carrier; MC_ShellCarrier (MC + exhaustive/simulated GEN), ShellTrace"},
             {"name": "Rules", "path": "specs/Rules.tla", "serves_properties": ["C04"],
              "kind_free_text": "TLA+ reference semantics of the expectation kinds; MC_Rules (enumeration + sanity), RulesTrace (re-evaluation of implementation answers)"},
         ],
